@@ -7,7 +7,7 @@ from props import fam_sym
 
 MANIFEST = dict(
     technique='Coq proof (phase transport over Z/24 for every group, list and symmetry-consistent phase function) + differential check + sphere-function oracles on gemmi',
-    text='ensure_asu is also run on a file with two datasets that use the same (+)/(-) labels (each pair must be swapped within its own dataset). Theorems for every row of the regenerated table, both ASU conventions and every hkl: ensure_asu never fails; the phase it stores after moving a reflection (shift -(h.t) of the ORIGINAL index, negation for Friedel mates) is the true phase of the new index for any phase function obeying F(hR)=F(h)exp(-2 pi i h.t) and Friedel law; original -> (ASU index, ISYM) -> original restores unmerged indices; expand_to_p1 (for ANY operation list and hkl): the original and its copies are pairwise distinct with no Friedel pair, every image of every operation is present itself or as its mate (whole orbit for every table group), and each copy carries the phase shift of the operation that produced it, hence the true phase of its index. RE-INDEXING (Move/Reindex.v): with new index hP and new operation P^-1 g P computed as GroupOps::change_basis_impl does, in the integer arithmetic of the library (the exact divisions the code performs are the hypotheses), the relabelled operation acts on the relabelled index as the old one on the old index, with the same phase shift modulo whole turns, an operation fixing an index becomes one fixing its new label (absences, centricity, epsilon preserved) and the inverse operator restores the index. The index/phase/(+)/(-)-swap bookkeeping model is compared exactly with Mtz::ensure_asu, AsuData::ensure_asu and Mtz::expand_to_p1 (order, indices and phase shifts of the appended rows) on every row; oracles on gemmi compare F, phase, HL coefficients, F(+)/F(-)/DANO of transformed lists (ensure_asu, AsuData::ensure_asu, expand_to_p1) with structure factors of a point-atom model, check unmerged original<->ASU round trips with M/ISYM flags, and reindexing (d-spacing, absences, centricity, epsilon preserved; undone by the inverse operator).',
+    text='ensure_asu is also run on a file with two datasets that use the same (+)/(-) labels (each pair must be swapped within its own dataset). Theorems for every row of the regenerated table, both ASU conventions and every hkl: ensure_asu never fails; the phase it stores after moving a reflection (shift -(h.t) of the ORIGINAL index, negation for Friedel mates) is the true phase of the new index for any phase function obeying F(hR)=F(h)exp(-2 pi i h.t) and Friedel law; original -> (ASU index, ISYM) -> original restores unmerged indices; expand_to_p1 (for ANY operation list and hkl): the original and its copies are pairwise distinct with no Friedel pair, every image of every operation is present itself or as its mate (whole orbit for every table group), and each copy carries the phase shift of the operation that produced it, hence the true phase of its index. RE-INDEXING (Move/Reindex.v): with new index hP and new operation P^-1 g P computed as GroupOps::change_basis_impl does, in the integer arithmetic of the library (the exact divisions the code performs are the hypotheses), the relabelled operation acts on the relabelled index as the old one on the old index, with the same phase shift modulo whole turns, an operation fixing an index becomes one fixing its new label (absences, centricity, epsilon preserved) and the inverse operator restores the index. THE (+)/(-) ASSIGNMENT (Move/PlusMinus.v, a model of Mtz::positions_of_plus_minus_columns on label bytes, column type and dataset id, and of the swap loop of ensure_asu): a pair is reported exactly when a column with the (-) spelling of the first (+) sign, the same type and the same dataset exists anywhere in the file, before or after the (+) column (soundness + completeness, the partner is the first such column and never the column itself); for an ordinary column set (at most one opening parenthesis per label, no two columns with the same label, type and dataset) the pairs are disjoint, the swap exchanges exactly the two values of every pair, leaves every other column alone and is an involution (moving back through the Friedel mate restores the row); compared with the code on generated column layouts (pairs in either order, interleaved, duplicated candidates, near misses in type / dataset / spelling, labels with several signs) through positions_of_plus_minus_columns and the real ensure_asu. The index/phase/(+)/(-)-swap bookkeeping model is compared exactly with Mtz::ensure_asu, AsuData::ensure_asu and Mtz::expand_to_p1 (order, indices and phase shifts of the appended rows) on every row; oracles on gemmi compare F, phase, HL coefficients, F(+)/F(-)/DANO of transformed lists (ensure_asu, AsuData::ensure_asu, expand_to_p1) with structure factors of a point-atom model, check unmerged original<->ASU round trips with M/ISYM flags, and reindexing (d-spacing, absences, centricity, epsilon preserved; undone by the inverse operator).',
     note='Trusted: Coq kernel + vm_compute; translator; extraction; harness (its point-atom structure-factor oracle in double precision, tolerances 1e-3 relative on amplitudes, 0.05 degree on phases). No axioms. HL rotation is decided by the oracles only (no theorem); reindexing: theorem per operation, the new cell, the space-group lookup and the row removal by the oracle.')
 
 
@@ -35,6 +35,7 @@ def run(chk):
                 lines.append('move\t%d %d %d %d %d' % (i, tnt, *hkl))
                 if tnt == 0:
                     lines.append('expand\t%d %d %d %d' % (i, *hkl))
+    lines += pm_lines(rng, 400 if quick else 20000)
     orows = rows if not quick else sorted(set(rng.sample(rows, 150) + [0, 1, 3, 12, 114, 146, 170, 200, 353, 409, 434, 500, 529, 530, 563]))
     for i in orows:
         seed = rng.randint(1, 10 ** 6)
@@ -65,12 +66,52 @@ def run(chk):
                     replay={'harness': 'h_move', 'line': cmd + '\t' + args})
     for (line, kind, err) in res['crashes']:
         chk.violate('crash', 'h_move %s on %s' % (kind, line), err, replay={'harness': 'h_move', 'line': line})
-    chk.rule = ('move/expand: every row x both conventions x random/special hkl through Mtz::ensure_asu, AsuData::ensure_asu and Mtz::expand_to_p1, compared '
+    chk.rule = ('pm: generated column layouts ((+)/(-) pairs in both orders, duplicates, near misses) through positions_of_plus_minus_columns and ensure_asu vs the model; move/expand: every row x both conventions x random/special hkl through Mtz::ensure_asu, AsuData::ensure_asu and Mtz::expand_to_p1, compared '
                 'exactly with the model (new index, phase sign and shift in 1/24 turn, (+)/(-) swap); oracles o_ensure/o_asudata/'
                 'o_expand/o_switch/o_reindex on gemmi with point-atom truth. non-trivial = not skipped/rejected')
     if not proved:
         chk.violate('proof', 'Properties_C13 ' + ','.join(getattr(chk, 'failed_theorems', [])),
                     getattr(chk, 'coq_log_tail', ''), found_input=False)
+
+
+def pm_lines(rng, n):
+    """Column layouts for positions_of_plus_minus_columns + the swap of ensure_asu (model Move/PlusMinus.v): (+)/(-)
+    pairs in either order, interleaved, duplicated, with near misses (other type, other dataset, other spelling), labels
+    with several signs; special column types P/A/D are left out so that the swap is the only change of the row."""
+    hx = lambda t: ''.join('%02x' % ord(c) for c in t)
+    bases = ['F', 'I', 'SIGF', 'SIGI', 'E', 'FPH1', 'X', '', 'F(+)', 'I(-)', 'K_']
+    types = [ord(c) for c in 'GLKMRFJQW']
+    out = []
+    for _ in range(n):
+        cols = []
+        for _ in range(rng.randint(0, 4)):
+            b, t, d = rng.choice(bases), rng.choice(types), rng.randint(0, 2)
+            tail = rng.choice(['', '', '', '_1', 'x'])
+            grp = [(b + '(+)' + tail, t, d), (b + '(-)' + tail, t, d)]
+            if rng.random() < 0.5:
+                grp.reverse()
+            r = rng.random()
+            if r < 0.15:
+                grp.append((b + '(-)' + tail, t, d))              # a second candidate: the first one in file order wins
+            elif r < 0.3:
+                grp[rng.randint(0, 1)] = (grp[0][0], rng.choice(types), d)   # type mismatch (or a duplicate)
+            elif r < 0.45:
+                grp[rng.randint(0, 1)] = (grp[1][0], t, (d + 1) % 3)         # other dataset
+            elif r < 0.55:
+                grp.pop(rng.randint(0, 1))                        # partner missing
+            cols += grp
+        for _ in range(rng.randint(0, 3)):
+            cols.append((rng.choice(bases) + rng.choice(['', '(+', '+)', '()', '(+)(+)', '(-)(+)', '(+)(-)', '( +)', '(*)']),
+                         rng.choice(types), rng.randint(0, 2)))
+        rng.shuffle(cols)
+        if rng.random() < 0.3:
+            cols.sort(key=lambda c: c[0])     # all (+) before their (-)
+        elif rng.random() < 0.3:
+            cols.sort(key=lambda c: c[0], reverse=True)
+        cols = [('H', 72, 0), ('K', 72, 0), ('L', 72, 0)] + cols
+        row = [-1, -2, -3] + [10 + i for i in range(len(cols) - 3)]
+        out.append('pm\t' + ' '.join('%s:%d:%d' % (hx(l) or '', t, d) for l, t, d in cols) + ' | ' + ' '.join(map(str, row)))
+    return out
 
 
 REINDEX_OPS = [
